@@ -261,23 +261,35 @@ func rulesC20(c *Ctx) {
 			}
 			for _, call := range f.CallsIn(f.Body, removeFirst, false) {
 				nRem++
-				v := g.VertexOf(call)
-				var r types.Object
-				okp := false
-				if as, ok := g.Node(v).(*ast.AssignStmt); ok {
-					r = f.ObjOf(as.Lhs[0])
-					// s.nBytes -= dl.removeFirst(): removal and accounting in one statement
-					if as.Tok == token.SUB_ASSIGN && len(as.Lhs) == 1 && len(as.Rhs) == 1 && f.IsField(as.Lhs[0], nBytes) && ast.Unparen(as.Rhs[0]) == ast.Expr(call) {
-						okp, r = true, nil
-					}
+				c.Check(c20RemovalSubtracted(f, g, call, nBytes), "removeFirst-paired:"+f.Name(), f, call, "the size returned by removeFirst() is subtracted from nBytes before the next removal or return (directly, or through a tally that starts at zero, gains every removed size and is subtracted before it is filled again)")
+				// an aggregate counter between the store total and the lists (what SessionClosed takes off the total for a
+				// whole session) loses the same bytes, or closing the session later subtracts evicted bytes a second time
+				for _, agg := range c20Aggregates(c, storeF, nBytes) {
+					c.Check(c20RemovalSubtracted(f, g, call, agg), "removeFirst-paired-aggregate:"+agg.Name()+":"+f.Name(), f, call, "the size returned by removeFirst() is also subtracted from the per-session counter %s that SessionClosed subtracts from nBytes", agg.Name())
 				}
-				if r != nil {
-					okp, _ = g.MustPass(v, append(append([]int{}, g.Exits...), v), func(u int) bool {
+			}
+			for _, call := range f.CallsIn(f.Body, appendData, false) {
+				for _, agg := range c20Aggregates(c, storeF, nBytes) {
+					v := g.VertexOf(call)
+					d := call.Args[0]
+					isAdd := func(u int) bool {
 						as, ok := g.Node(u).(*ast.AssignStmt)
-						return ok && as.Tok == token.SUB_ASSIGN && f.IsField(as.Lhs[0], nBytes) && f.ObjOf(as.Rhs[0]) == r
-					})
+						if !ok || as.Tok != token.ADD_ASSIGN || !f.IsField(as.Lhs[0], agg) {
+							return false
+						}
+						lc, ok := ast.Unparen(f.valueOf(as.Rhs[0])).(*ast.CallExpr)
+						return ok && f.BuiltinName(lc) == "len" && sameExpr(lc.Args[0], d)
+					}
+					okp, _ := g.PostDominatedBy(v, isAdd)
+					if !okp {
+						for u := 0; u < g.N; u++ {
+							if isAdd(u) && g.Dominates(u, v) {
+								okp = true
+							}
+						}
+					}
+					c.Check(okp, "appendData-paired-aggregate:"+agg.Name()+":"+f.Name(), f, call, "every appendData(d) is accompanied by %s += len(d) for the per-session counter that SessionClosed subtracts from nBytes", agg.Name())
 				}
-				c.Check(okp, "removeFirst-paired:"+f.Name(), f, call, "the size returned by removeFirst() is subtracted from nBytes before the next removal or return")
 			}
 			for _, fld := range []*types.Var{sizeF, firstF, dataF} {
 				for _, w := range f.FieldWrites(f.Body, fld, false) {
@@ -447,6 +459,22 @@ func rulesC20(c *Ctx) {
 				}
 			}
 		})
+		if !okSub && delV >= 0 {
+			// the session's bytes are kept in a counter of their own (maintained next to every append and removal: the
+			// …-aggregate obligations above): closing subtracts that counter, read from the session's entry in the table
+			for _, agg := range c20Aggregates(c, storeF, nBytes) {
+				for _, w := range Writes(sc.Body, false) {
+					as, ok := w.Stmt.(*ast.AssignStmt)
+					if !ok || as.Tok != token.SUB_ASSIGN || !sc.IsField(w.LHS, nBytes) || len(as.Rhs) != 1 || !sc.IsField(as.Rhs[0], agg) {
+						continue
+					}
+					sv := sg.VertexOf(as)
+					if sg.Dominates(sv, delV) || sg.Dominates(delV, sv) {
+						okSub = true
+					}
+				}
+			}
+		}
 		c.Check(okSub, "SessionClosed:releases-all-bytes", sc, nil, "closing a session subtracts the size of every list of that session from nBytes, then deletes the session")
 		// ... on every path: a session that retains no byte (everything evicted, or only opened) is forgotten like any other
 		if delV >= 0 {
@@ -495,18 +523,59 @@ func rulesC20(c *Ctx) {
 		c.Need(cp != nil, "After: locked copy literal")
 		c.touch(cp)
 		g := cp.Graph()
+		ePurged := c.Obj(pM, "ErrEventsPurged")
+		// Each obligation below is first read off the shape of the code; when the shape is another one, the three-way
+		// decision is *evaluated* (c20EvalAfter): for concrete (index, first, len(data)) the conditions of the copy function
+		// are decided and the return that is reached must be of the class the property demands. Only when neither answers
+		// and the list has been given another representation (After reads list fields besides first/data/size) is the
+		// answer "undecided".
+		var ev c20AfterEval
+		altRep := false
+		inspectNoLit(cp.Body, func(n ast.Node) {
+			if sel, ok := n.(*ast.SelectorExpr); ok {
+				if fld, isV := cp.ObjOf(sel).(*types.Var); isV && fld.IsField() && fld != sizeF && fld != firstF && fld != dataF {
+					for _, df := range structFields(dlT) {
+						if df == fld {
+							altRep = true
+						}
+					}
+				}
+			}
+		})
+		judge := func(shapeOK bool, e tri, key string, n ast.Node, detail string, a ...any) {
+			switch {
+			case shapeOK || e == triTrue:
+				c.Ok(key, cp, n, detail, a...)
+			case e == triFalse:
+				c.Fail(key, cp, n, detail+" — evaluated: "+ev.witness, a...)
+			case altRep:
+				c.Undecided(key, cp, n, "the list has another representation than (first, data): "+detail, a...)
+			default:
+				c.Fail(key, cp, n, detail, a...)
+			}
+		}
+		var startChecks []func()
 		var start types.Object
+		var startRHS ast.Expr
 		for _, w := range Writes(cp.Body, false) {
 			// the offset variable is the local computed from the list's first retained index
 			if id, ok := w.LHS.(*ast.Ident); ok && w.RHS != nil && len(cp.FieldRefs(w.RHS, firstF, false)) > 0 {
 				start = cp.ObjOf(id)
 				lf, k, ok := linearForm(cp, w.RHS)
 				okLF := ok && k == 1 && len(lf) == 2 && lf["param(int)"] == 1 && lf["dataList.first"] == -1
-				c.Check(okLF, "After:start-offset", cp, w.Stmt, "the slice offset is index + 1 - first (linear normal form of %s)", exprStr(w.RHS))
+				w := w
+				startRHS = w.RHS
+				startChecks = append(startChecks, func() {
+					judge(okLF, ev.all(), "After:start-offset", w.Stmt, "the slice offset is index + 1 - first (linear normal form of %s)", exprStr(w.RHS))
+				})
 			}
 		}
 		c.Need(start != nil, "After: start offset")
-		ePurged := c.Obj(pM, "ErrEventsPurged")
+		ev = c20EvalAfter(cp, g, ePurged, dataF, start)
+		for _, fn := range startChecks {
+			fn()
+		}
+		c20OriginKept(c, cp, dlT, dataF, start, startRHS)
 		var purgedRet *ast.ReturnStmt
 		// an answer is what an error-free return hands out and where that was decided: the return itself, or — when the
 		// result travels through a local (`ds = …; …; return ds, nil`, the shape an expanded helper leaves) — each assignment
@@ -602,18 +671,18 @@ func rulesC20(c *Ctx) {
 				dataAns = an
 			}
 		}
-		c.Check(purgedRet != nil, "After:purged-detected", cp, nil, "start < 0 (some requested event was evicted) returns an error wrapping ErrEventsPurged")
+		judge(purgedRet != nil, ev.purge, "After:purged-detected", nil, "start < 0 (some requested event was evicted) returns an error wrapping ErrEventsPurged")
 		// ... and nothing is answered before that test: an "empty list, nothing to replay" shortcut in front of it turns
 		// a purge into silence (the consumer resumes with a gap and ids that no longer match the store)
 		for i, an := range answers {
 			gs := g.GuardsAt(g.VertexOf(an.at))
-			c.Check(hasAtom(gs, func(a Atom) bool {
+			judge(hasAtom(gs, func(a Atom) bool {
 				x, y, op, ok := binaryCmp(a.E)
 				z, isZ := cp.ConstInt(y)
 				return ok && op == token.LSS && !a.Val && cp.ObjOf(x) == start && isZ && z == 0
-			}), "After:purge-test-before-any-answer#"+itoa(i), cp, an.at, "every error-free answer of After lies behind the start < 0 test (guards: %s)", atomsString(gs))
+			}), ev.purge, "After:purge-test-before-any-answer#"+itoa(i), an.at, "every error-free answer of After lies behind the start < 0 test (guards: %s)", atomsString(gs))
 		}
-		c.Check(emptyAns != nil, "After:nothing-new", cp, nil, "start >= len(data) returns no data")
+		judge(emptyAns != nil, ev.empty, "After:nothing-new", nil, "start >= len(data) returns no data")
 		okClone := false
 		var dataRet ast.Node
 		if dataAns != nil {
@@ -621,11 +690,11 @@ func rulesC20(c *Ctx) {
 			okClone = freshSuffixCopy(cp, dataAns.val, dataF, start)
 			gd := g.GuardsAt(g.VertexOf(dataRet))
 			// 0 <= start: -(index + 1 - first) <= 0;  start < len(data): (index + 1 - first) - len(data) + 1 <= 0
-			c.Check(cp.hasLinAtom(gd, token.LEQ, -1, map[string]int64{"param(int)": -1, "dataList.first": 1}) &&
+			judge(cp.hasLinAtom(gd, token.LEQ, -1, map[string]int64{"param(int)": -1, "dataList.first": 1}) &&
 				cp.hasLinAtom(gd, token.LEQ, 2, map[string]int64{"param(int)": 1, "dataList.first": -1, "len(dataList.data)": -1}),
-				"After:suffix-bounds-checked", cp, dataRet, "the suffix is taken only for 0 <= start < len(data)")
+				ev.all(), "After:suffix-bounds-checked", dataRet, "the suffix is taken only for 0 <= start < len(data)")
 		}
-		c.Check(okClone, "After:copy-under-lock", cp, dataRet, "the suffix data[start:] is copied (slices.Clone, append to an empty slice, or an element-by-element copy into a new slice) while the lock is held (eviction nils elements of the live backing array, so an aliasing view would later yield emptied payloads without a purge error)")
+		judge(okClone, ev.data, "After:copy-under-lock", dataRet, "the suffix data[start:] is copied (slices.Clone, append to an empty slice, or an element-by-element copy into a new slice) while the lock is held (eviction nils elements of the live backing array, so an aliasing view would later yield emptied payloads without a purge error)")
 		c.Check(cp.heldLocal(dataRet)[lkStore], "After:copy-lock-held", cp, dataRet, "the copy happens with the store mutex held")
 		// the iterator: error first and alone; data yielded outside the lock
 		var it *Func
@@ -768,7 +837,15 @@ func rulesC20(c *Ctx) {
 func freshSuffixCopy(f *Func, e ast.Expr, dataF *types.Var, start types.Object) bool {
 	suffix := func(x ast.Expr) bool {
 		sl, ok := ast.Unparen(x).(*ast.SliceExpr)
-		return ok && f.IsField(sl.X, dataF) && sl.Low != nil && f.ObjOf(sl.Low) == start && sl.High == nil && sl.Max == nil
+		if !ok || !f.IsField(sl.X, dataF) || sl.Low == nil || sl.High != nil || sl.Max != nil {
+			return false
+		}
+		if start != nil && f.ObjOf(sl.Low) == start {
+			return true
+		}
+		// the offset written out (or held in another local): index + 1 - first
+		t, k, okL := c20Lin(f, sl.Low, 0)
+		return okL && k == 1 && len(t) == 2 && t["param(int)"] == 1 && t["dataList.first"] == -1
 	}
 	empty := func(x ast.Expr) bool {
 		x = ast.Unparen(x)
@@ -880,4 +957,933 @@ func freshSuffixCopy(f *Func, e ast.Expr, dataF *types.Var, start types.Object) 
 		return inits == 1 && fills == 0 && n == 1
 	}
 	return inits == 1 && fills == 1
+}
+
+// c20Aggregates: the integer fields, outside the store and the lists themselves, whose value SessionClosed subtracts from
+// the store total for the session it is given (`nBytes -= s.store[id].A`, the entry possibly taken into a local first):
+// per-session byte counters that stand for the sum of the sizes of the session's lists.
+func c20Aggregates(c *Ctx, storeF, nBytes *types.Var) []*types.Var {
+	sc := c.P.FuncOf(c.P.LookupFuncObj(pM, "MemoryEventStore", "SessionClosed"))
+	if sc == nil || sc.Body == nil || len(sc.NonRecvParams()) != 2 {
+		return nil
+	}
+	id := sc.NonRecvParams()[1]
+	var out []*types.Var
+	for _, w := range Writes(sc.Body, false) {
+		as, ok := w.Stmt.(*ast.AssignStmt)
+		if !ok || as.Tok != token.SUB_ASSIGN || !sc.IsField(w.LHS, nBytes) || len(as.Rhs) != 1 {
+			continue
+		}
+		sel, isSel := ast.Unparen(as.Rhs[0]).(*ast.SelectorExpr)
+		if !isSel {
+			continue
+		}
+		fld, isV := sc.ObjOf(sel).(*types.Var)
+		if !isV || !fld.IsField() {
+			continue
+		}
+		if b, isB := fld.Type().Underlying().(*types.Basic); !isB || b.Info()&types.IsInteger == 0 {
+			continue
+		}
+		// the owner is the session's entry: s.store[id], or a local defined from it
+		owner := ast.Unparen(sel.X)
+		if oid, isID := owner.(*ast.Ident); isID {
+			for _, w2 := range Writes(sc.Body, false) {
+				if sc.ObjOf(w2.LHS) != sc.ObjOf(oid) {
+					continue
+				}
+				if w2.RHS != nil {
+					owner = ast.Unparen(w2.RHS)
+				} else if as2, ok := w2.Stmt.(*ast.AssignStmt); ok && len(as2.Rhs) == 1 && len(as2.Lhs) == 2 && as2.Lhs[0] == w2.LHS {
+					owner = ast.Unparen(as2.Rhs[0])
+				}
+			}
+		}
+		m, k, isIx := indexOf(owner)
+		if !isIx || !sc.IsField(m, storeF) || sc.ObjOf(k) != types.Object(id) {
+			continue
+		}
+		dup := false
+		for _, o := range out {
+			dup = dup || o == fld
+		}
+		if !dup {
+			out = append(out, fld)
+		}
+	}
+	return out
+}
+
+// c20RemovalSubtracted: the size handed back by the removeFirst call is subtracted from the counter fld: in the same
+// statement (fld -= dl.removeFirst()), from the local that received it before the next removal or return, or through a
+// tally (t += dl.removeFirst()) — a local that is zero when the accumulation starts, is subtracted from fld (itself or an
+// unmodified copy of it) on every way from the removal to a return, and is zeroed again before more is added to it.
+func c20RemovalSubtracted(f *Func, g *Graph, call *ast.CallExpr, fld *types.Var) bool {
+	v := g.VertexOf(call)
+	as, ok := g.Node(v).(*ast.AssignStmt)
+	if !ok || len(as.Lhs) != 1 || len(as.Rhs) != 1 || ast.Unparen(as.Rhs[0]) != ast.Expr(call) {
+		return false
+	}
+	if as.Tok == token.SUB_ASSIGN && f.IsField(as.Lhs[0], fld) {
+		return true
+	}
+	r, isV := f.ObjOf(as.Lhs[0]).(*types.Var)
+	if !isV || r.IsField() || f.Root().addressTaken(r) {
+		return false
+	}
+	subOf := func(u int, o types.Object) bool {
+		s, ok := g.Node(u).(*ast.AssignStmt)
+		return ok && s.Tok == token.SUB_ASSIGN && len(s.Lhs) == 1 && len(s.Rhs) == 1 && f.IsField(s.Lhs[0], fld) && f.ObjOf(s.Rhs[0]) == o && o != nil
+	}
+	switch as.Tok {
+	case token.DEFINE, token.ASSIGN:
+		okp, _ := g.MustPass(v, append(append([]int{}, g.Exits...), v), func(u int) bool { return subOf(u, r) })
+		return okp
+	case token.ADD_ASSIGN:
+	default:
+		return false
+	}
+	// the tally: zeroed by its declaration (or `= 0`), otherwise only added to by removals
+	zero := map[int]bool{}
+	for _, w := range Writes(f.Body, false) {
+		if f.ObjOf(w.LHS) != types.Object(r) {
+			continue
+		}
+		if w.Stmt == ast.Node(as) {
+			continue
+		}
+		if _, isVS := w.Stmt.(*ast.ValueSpec); isVS && w.RHS == nil {
+			zero[g.VertexOf(w.Stmt)] = true
+			continue
+		}
+		if z, isZ := f.ConstInt(w.RHS); w.RHS != nil && isZ && z == 0 && (w.Tok == token.DEFINE || w.Tok == token.ASSIGN) {
+			zero[g.VertexOf(w.Stmt)] = true
+			continue
+		}
+		// another removal accumulated into the same tally is fine; anything else is not a tally
+		if s2, ok := w.Stmt.(*ast.AssignStmt); ok && s2.Tok == token.ADD_ASSIGN && len(s2.Rhs) == 1 {
+			if c2, isC := ast.Unparen(s2.Rhs[0]).(*ast.CallExpr); isC && f.Callee(c2) == f.Callee(call) {
+				continue
+			}
+		}
+		return false
+	}
+	if len(zero) == 0 {
+		return false
+	}
+	zeroDominates := false
+	for z := range zero {
+		zeroDominates = zeroDominates || g.Dominates(z, v)
+	}
+	if !zeroDominates {
+		return false
+	}
+	// carriers: the tally and locals that receive it once, unmodified
+	type carrier struct {
+		o    types.Object
+		copy int // vertex of the copying assignment, -1 for the tally itself
+	}
+	cs := []carrier{{r, -1}}
+	for _, w := range Writes(f.Body, false) {
+		if w.RHS == nil || f.ObjOf(w.RHS) != types.Object(r) || (w.Tok != token.DEFINE && w.Tok != token.ASSIGN) {
+			continue
+		}
+		lv, isL := f.ObjOf(w.LHS).(*types.Var)
+		if !isL || lv.IsField() || f.Root().addressTaken(lv) {
+			continue
+		}
+		n := 0
+		for _, w2 := range Writes(f.Body, false) {
+			if f.ObjOf(w2.LHS) == types.Object(lv) {
+				if _, isVS := w2.Stmt.(*ast.ValueSpec); isVS && w2.RHS == nil {
+					continue
+				}
+				n++
+			}
+		}
+		if n == 1 {
+			cs = append(cs, carrier{lv, g.VertexOf(w.Stmt)})
+		}
+	}
+	for _, cr := range cs {
+		okp, _ := g.MustPass(v, g.Exits, func(u int) bool { return subOf(u, cr.o) })
+		if !okp {
+			continue
+		}
+		good := true
+		for u := 0; u < g.N; u++ {
+			if !subOf(u, cr.o) {
+				continue
+			}
+			// the copy is taken after the last removal: every way from the removal to the subtraction passes it, and
+			// none leads from the copy back to the removal without passing a zeroing
+			if cr.copy >= 0 {
+				if all, _ := g.MustPass(v, []int{u}, func(x int) bool { return x == cr.copy }); !all {
+					good = false
+				}
+				if seen, _ := g.reach(g.succ[cr.copy], func(x int) bool { return zero[x] }, nil); seen[v] {
+					good = false
+				}
+			}
+			// nothing is added to the tally again after it was subtracted, unless it was zeroed in between
+			if seen, _ := g.reach(g.succ[u], func(x int) bool { return zero[x] }, nil); seen[v] {
+				good = false
+			}
+		}
+		if good {
+			return true
+		}
+	}
+	return false
+}
+
+// c20Lin reduces an integer expression to coefficient form over the terms param(T), Owner.field and len(Owner.field): a
+// local with a single definition stands for it, and the length of a slice of a slice (x[a:][b:]) is len(x) - a - b.
+func c20Lin(f *Func, e ast.Expr, depth int) (map[string]int64, int64, bool) {
+	e = ast.Unparen(e)
+	if v, ok := f.ConstInt(e); ok {
+		return map[string]int64{}, v, true
+	}
+	if depth > 6 {
+		return nil, 0, false
+	}
+	switch x := e.(type) {
+	case *ast.BinaryExpr:
+		if x.Op != token.ADD && x.Op != token.SUB {
+			return nil, 0, false
+		}
+		a, ca, ok1 := c20Lin(f, x.X, depth+1)
+		b, cb, ok2 := c20Lin(f, x.Y, depth+1)
+		if !ok1 || !ok2 {
+			return nil, 0, false
+		}
+		sign := int64(1)
+		if x.Op == token.SUB {
+			sign = -1
+		}
+		for k, v := range b {
+			a[k] += sign * v
+		}
+		for k, v := range a {
+			if v == 0 {
+				delete(a, k)
+			}
+		}
+		return a, ca + sign*cb, true
+	case *ast.Ident:
+		v, ok := f.ObjOf(x).(*types.Var)
+		if !ok {
+			return nil, 0, false
+		}
+		for _, p := range f.Root().Params() {
+			if p == v {
+				return map[string]int64{"param(" + v.Type().String() + ")": 1}, 0, true
+			}
+		}
+		if def := f.valueOf(x); def != ast.Expr(x) && pureCond(def) {
+			return c20Lin(f, def, depth+1)
+		}
+		return nil, 0, false
+	case *ast.SelectorExpr:
+		if fld, ok := f.ObjOf(x).(*types.Var); ok && fld.IsField() {
+			return map[string]int64{f.FieldPath(x): 1}, 0, true
+		}
+		return nil, 0, false
+	case *ast.CallExpr:
+		if f.BuiltinName(x) != "len" || len(x.Args) != 1 {
+			return nil, 0, false
+		}
+		out := map[string]int64{}
+		var k int64
+		cur := ast.Unparen(x.Args[0])
+		for i := 0; i < 6; i++ {
+			switch y := cur.(type) {
+			case *ast.Ident:
+				nx := ast.Unparen(f.valueOf(y))
+				if nx == cur {
+					return nil, 0, false
+				}
+				cur = nx
+				continue
+			case *ast.SliceExpr:
+				if y.High != nil || y.Max != nil {
+					return nil, 0, false
+				}
+				if y.Low != nil {
+					t, c0, ok := c20Lin(f, y.Low, depth+1)
+					if !ok {
+						return nil, 0, false
+					}
+					for kk, v := range t {
+						out[kk] -= v
+					}
+					k -= c0
+				}
+				cur = ast.Unparen(y.X)
+				continue
+			case *ast.SelectorExpr:
+				if fld, ok := f.ObjOf(y).(*types.Var); ok && fld.IsField() {
+					out["len("+f.FieldPath(y)+")"]++
+					return out, k, true
+				}
+			}
+			return nil, 0, false
+		}
+	}
+	return nil, 0, false
+}
+
+// c20AfterEval: what evaluating After's locked copy function says about each of the three answers (triTrue: for every
+// valuation of the grid exactly the demanded class of return is reached; triFalse: for some valuation, with every
+// condition on the way decided, another class is reached; triUnknown: some condition could not be decided).
+type c20AfterEval struct {
+	purge, empty, data tri
+	witness            string
+}
+
+func (e c20AfterEval) all() tri {
+	if e.purge == triFalse || e.empty == triFalse || e.data == triFalse {
+		return triFalse
+	}
+	if e.purge == triTrue && e.empty == triTrue && e.data == triTrue {
+		return triTrue
+	}
+	return triUnknown
+}
+
+// c20EvalAfter evaluates the copy function for concrete (index, first, len(data)). With s = index + 1 - first the property
+// demands: s < 0 → an error wrapping ErrEventsPurged and nothing else; 0 <= s < len(data) → a fresh copy of data[s:];
+// s >= len(data) → no data and no error. Lookups in the tables are taken to succeed.
+func c20EvalAfter(cp *Func, g *Graph, ePurged types.Object, dataF *types.Var, start types.Object) c20AfterEval {
+	const (
+		oPurge = iota + 1
+		oEmpty
+		oData
+		oOther
+	)
+	names := map[int]string{oPurge: "the purge error", oEmpty: "no data", oData: "a copy of the suffix", oOther: "something else"}
+	var val map[string]int64
+	isLocal := func(e ast.Expr) (*ast.Ident, bool) {
+		id, ok := ast.Unparen(e).(*ast.Ident)
+		if !ok || isNilIdent(id) {
+			return nil, false
+		}
+		v, isV := cp.ObjOf(id).(*types.Var)
+		return id, isV && !v.IsField() && v.Pkg() != nil && v.Parent() != v.Pkg().Scope()
+	}
+	// nilness of an error-valued expression where it stands: triTrue = nil
+	var isNil func(e ast.Expr, depth int) tri
+	isNil = func(e ast.Expr, depth int) tri {
+		e = ast.Unparen(e)
+		if isNilIdent(e) {
+			return triTrue
+		}
+		if depth > 4 {
+			return triUnknown
+		}
+		if id, ok := isLocal(e); ok {
+			if def := cp.reachingDef(g, id); def != nil {
+				return isNil(def, depth+1)
+			}
+			return triUnknown
+		}
+		switch x := e.(type) {
+		case *ast.Ident:
+			if v, ok := cp.ObjOf(x).(*types.Var); ok && v.Pkg() != nil && v.Parent() == v.Pkg().Scope() && types.Identical(v.Type(), types.Universe.Lookup("error").Type()) {
+				return triFalse // a sentinel
+			}
+		case *ast.CallExpr:
+			if fn := cp.Callee(x); fn != nil && fn.Pkg() != nil && ((fn.Pkg().Path() == "fmt" && fn.Name() == "Errorf") || (fn.Pkg().Path() == "errors" && fn.Name() == "New")) {
+				return triFalse
+			}
+		}
+		return triUnknown
+	}
+	commaOK := func(id *ast.Ident) bool {
+		o := cp.ObjOf(id)
+		n := 0
+		for _, w := range Writes(cp.Body, false) {
+			if cp.ObjOf(w.LHS) != o {
+				continue
+			}
+			as, isAs := w.Stmt.(*ast.AssignStmt)
+			if !isAs || len(as.Lhs) != 2 || len(as.Rhs) != 1 || as.Lhs[1] != w.LHS {
+				return false
+			}
+			m, _, isIx := indexOf(as.Rhs[0])
+			if !isIx {
+				return false
+			}
+			if _, isMap := cp.TypeOf(m).Underlying().(*types.Map); !isMap {
+				return false
+			}
+			n++
+		}
+		return n > 0
+	}
+	leaf := func(e ast.Expr) tri {
+		e = ast.Unparen(e)
+		if id, ok := e.(*ast.Ident); ok {
+			if o := cp.ObjOf(id); o != nil && commaOK(id) {
+				return triTrue
+			}
+			return triUnknown
+		}
+		if x, trueWhenNil, ok := NilTest(e); ok {
+			n := isNil(x, 0)
+			if n == triUnknown {
+				return triUnknown
+			}
+			if (n == triTrue) == trueWhenNil {
+				return triTrue
+			}
+			return triFalse
+		}
+		x, y, op, ok := binaryCmp(e)
+		if !ok {
+			return triUnknown
+		}
+		tx, kx, ok1 := c20Lin(cp, x, 0)
+		ty, ky, ok2 := c20Lin(cp, y, 0)
+		if !ok1 || !ok2 {
+			return triUnknown
+		}
+		d := kx - ky
+		for t, cf := range tx {
+			v, known := val[t]
+			if !known {
+				return triUnknown
+			}
+			d += cf * v
+		}
+		for t, cf := range ty {
+			v, known := val[t]
+			if !known {
+				return triUnknown
+			}
+			d -= cf * v
+		}
+		var r bool
+		switch op {
+		case token.EQL:
+			r = d == 0
+		case token.NEQ:
+			r = d != 0
+		case token.LSS:
+			r = d < 0
+		case token.LEQ:
+			r = d <= 0
+		case token.GTR:
+			r = d > 0
+		case token.GEQ:
+			r = d >= 0
+		}
+		if r {
+			return triTrue
+		}
+		return triFalse
+	}
+	var wrapsPurge func(e ast.Expr, depth int) bool
+	wrapsPurge = func(e ast.Expr, depth int) bool {
+		e = ast.Unparen(e)
+		if depth > 4 {
+			return false
+		}
+		if cp.WrapsObj(e, ePurged) {
+			return true
+		}
+		if id, ok := isLocal(e); ok {
+			if def := cp.reachingDef(g, id); def != nil {
+				return wrapsPurge(def, depth+1)
+			}
+			return false
+		}
+		if call, ok := e.(*ast.CallExpr); ok {
+			for _, w := range cp.ErrorfWraps(call) {
+				if wrapsPurge(w, depth+1) {
+					return true
+				}
+			}
+		}
+		return false
+	}
+	var classify func(e ast.Expr, at int, reach []bool, depth int) int
+	classify = func(e ast.Expr, at int, reach []bool, depth int) int {
+		e = ast.Unparen(e)
+		if empty, _ := cp.emptySlice(e); empty {
+			return oEmpty
+		}
+		if freshSuffixCopy(cp, e, dataF, start) {
+			return oData
+		}
+		id, ok := isLocal(e)
+		if !ok || depth > 4 {
+			return oOther
+		}
+		// the value-giving assignments of the local that are reached under this valuation and lead to the use; the one
+		// none of the others can follow is the value
+		type cand struct {
+			v   int
+			rhs ast.Expr
+		}
+		var cands []cand
+		for _, w := range Writes(cp.Body, false) {
+			if cp.ObjOf(w.LHS) != cp.ObjOf(id) {
+				continue
+			}
+			wv := g.VertexOf(w.Stmt)
+			if wv < 0 || !reach[wv] || !(wv == at || g.ReachableFrom(wv)[at]) {
+				continue
+			}
+			if w.RHS == nil {
+				if _, isVS := w.Stmt.(*ast.ValueSpec); isVS {
+					cands = append(cands, cand{wv, ast.NewIdent("nil")})
+					continue
+				}
+				return oOther
+			}
+			cands = append(cands, cand{wv, w.RHS})
+		}
+		var last *cand
+		for i := range cands {
+			followed := false
+			for j := range cands {
+				if i != j && g.ReachableFrom(cands[i].v)[cands[j].v] {
+					followed = true
+				}
+			}
+			if !followed {
+				if last != nil {
+					return oOther
+				}
+				last = &cands[i]
+			}
+		}
+		if last == nil {
+			return oOther
+		}
+		if id2, isID := last.rhs.(*ast.Ident); isID && id2.Name == "nil" && id2.Obj == nil && cp.ObjOf(id2) == nil {
+			return oEmpty // declared without a value
+		}
+		return classify(last.rhs, last.v, reach, depth+1)
+	}
+	res := c20AfterEval{purge: triTrue, empty: triTrue, data: triTrue}
+	set := func(p *tri, t tri) {
+		if *p == triFalse || t == triTrue {
+			return
+		}
+		if t == triFalse || *p == triTrue {
+			*p = t
+		}
+	}
+	for _, F := range []int64{0, 3} {
+		for _, N := range []int64{0, 1, 3} {
+			for I := int64(-1); I <= F+N+1; I++ {
+				val = map[string]int64{"param(int)": I, "dataList.first": F, "len(dataList.data)": N}
+				s := I + 1 - F
+				want, slot := oData, &res.data
+				switch {
+				case s < 0:
+					want, slot = oPurge, &res.purge
+				case s >= N:
+					want, slot = oEmpty, &res.empty
+				}
+				reach := g.ReachUnder(leaf, nil)
+				decided := true
+				for i, b := range g.C.Blocks {
+					if !b.Live || len(b.Succs) != 2 || len(b.Nodes) == 0 {
+						continue
+					}
+					cond, isE := b.Nodes[len(b.Nodes)-1].(ast.Expr)
+					if !isE || !reach[g.off[i]+len(b.Nodes)-1] {
+						continue
+					}
+					if evalTri(cond, leaf) == triUnknown {
+						decided = false
+					}
+				}
+				got := map[int]bool{}
+				for _, r := range cp.Returns() {
+					rv := g.VertexOf(r)
+					if rv < 0 || !reach[rv] {
+						continue
+					}
+					if len(r.Results) != 2 {
+						got[oOther] = true
+						continue
+					}
+					switch isNil(r.Results[1], 0) {
+					case triTrue:
+						got[classify(r.Results[0], rv, reach, 0)] = true
+					case triFalse:
+						if wrapsPurge(r.Results[1], 0) {
+							got[oPurge] = true
+						} else {
+							got[oOther] = true
+						}
+					default:
+						got[oOther] = true
+						decided = false
+					}
+				}
+				okHere := len(got) > 0
+				var gotS []string
+				for o := oPurge; o <= oOther; o++ {
+					if !got[o] {
+						continue
+					}
+					gotS = append(gotS, names[o])
+					if o != want && !(o == oData && want == oEmpty && s == N) {
+						okHere = false
+					}
+				}
+				switch {
+				case okHere && decided:
+				case okHere || !decided:
+					// reached the right class among undecided branches, or the wrong one only because a branch is unknown
+					if !okHere || !decided {
+						set(slot, triUnknown)
+					}
+				default:
+					set(slot, triFalse)
+					if res.witness == "" {
+						res.witness = "for index=" + itoa(int(I)) + ", first=" + itoa(int(F)) + ", len(data)=" + itoa(int(N)) + " After answers " + strings.Join(gotS, " or ") + " where the property demands " + names[want]
+					}
+				}
+			}
+		}
+	}
+	return res
+}
+
+// c20Sym: a linear form over the values the list's fields had when the function was entered.
+type c20Sym struct {
+	t  map[string]int64
+	k  int64
+	ok bool
+}
+
+func (a c20Sym) add(b c20Sym, sign int64) c20Sym {
+	if !a.ok || !b.ok {
+		return c20Sym{}
+	}
+	out := c20Sym{t: map[string]int64{}, k: a.k + sign*b.k, ok: true}
+	for k, v := range a.t {
+		out.t[k] = v
+	}
+	for k, v := range b.t {
+		out.t[k] += sign * v
+	}
+	for k, v := range out.t {
+		if v == 0 {
+			delete(out.t, k)
+		}
+	}
+	return out
+}
+
+func (a c20Sym) same(b c20Sym) bool {
+	if a.k != b.k || len(a.t) != len(b.t) {
+		return false
+	}
+	for k, v := range a.t {
+		if b.t[k] != v {
+			return false
+		}
+	}
+	return true
+}
+
+// c20OriginKept: After turns a stream index into a position in data by subtracting an origin made of list fields
+// (start = index + 1 - O, taken in the view data[L:]): it relies on data[k] holding the item with index (O - L) + k. Every
+// function that rewrites those fields or moves the items of data must keep that true: on each path through it, O - L grows
+// by exactly the number of leading slots of data that were dropped (reslicing data[a:], or copying data[a:] to the front).
+// The assignments along each path are executed symbolically over the entry values of the fields; paths with a step that
+// cannot be modelled make no claim.
+func c20OriginKept(c *Ctx, cp *Func, dlT *types.Named, dataF *types.Var, start types.Object, startRHS ast.Expr) {
+	if startRHS == nil || start == nil {
+		return
+	}
+	t, k, ok := c20Lin(cp, startRHS, 0)
+	if !ok || t["param(int)"] != 1 {
+		return
+	}
+	_ = k
+	prefix := dlT.Obj().Name() + "."
+	base := c20Sym{t: map[string]int64{}, ok: true}
+	for term, cf := range t {
+		if term == "param(int)" {
+			continue
+		}
+		if !strings.HasPrefix(term, prefix) {
+			return
+		}
+		base.t[term] = -cf
+	}
+	// the view the offset is taken in
+	found := false
+	inspectNoLit(cp.Body, func(n ast.Node) {
+		sl, isSl := n.(*ast.SliceExpr)
+		if !isSl || found || sl.Low == nil || cp.ObjOf(sl.Low) != start {
+			return
+		}
+		x := ast.Unparen(sl.X)
+		if id, isID := x.(*ast.Ident); isID {
+			x = ast.Unparen(cp.valueOf(id))
+		}
+		if cp.IsField(x, dataF) {
+			found = true
+			return
+		}
+		if in, isIn := x.(*ast.SliceExpr); isIn && cp.IsField(in.X, dataF) && in.High == nil && in.Max == nil {
+			if in.Low == nil {
+				found = true
+				return
+			}
+			if lt, _, okL := c20Lin(cp, in.Low, 0); okL {
+				for term, cf := range lt {
+					if !strings.HasPrefix(term, prefix) {
+						return
+					}
+					base.t[term] -= cf
+					if base.t[term] == 0 {
+						delete(base.t, term)
+					}
+				}
+				found = true
+			}
+		}
+	})
+	if !found || len(base.t) == 0 {
+		return
+	}
+	isListField := func(f *Func, e ast.Expr) (string, *types.Var, bool) {
+		sel, isSel := ast.Unparen(e).(*ast.SelectorExpr)
+		if !isSel {
+			return "", nil, false
+		}
+		fld, isV := f.ObjOf(sel).(*types.Var)
+		if !isV || !fld.IsField() {
+			return "", nil, false
+		}
+		for _, df := range structFields(dlT) {
+			if df == fld {
+				return f.FieldPath(sel), fld, true
+			}
+		}
+		return "", nil, false
+	}
+	for _, f := range c.funcsWithLits(pM) {
+		if f.Body == nil {
+			continue
+		}
+		touches := false
+		for _, w := range Writes(f.Body, false) {
+			if path, fld, isL := isListField(f, w.LHS); isL && (fld == dataF || base.t[path] != 0) {
+				touches = true
+			}
+		}
+		if !touches {
+			continue
+		}
+		g := f.Graph()
+		type state struct {
+			fields map[string]c20Sym
+			locals map[types.Object]c20Sym
+			shift  c20Sym
+		}
+		clone := func(s state) state {
+			n := state{fields: map[string]c20Sym{}, locals: map[types.Object]c20Sym{}, shift: s.shift}
+			for k, v := range s.fields {
+				n.fields[k] = v
+			}
+			for k, v := range s.locals {
+				n.locals[k] = v
+			}
+			return n
+		}
+		var eval func(s *state, e ast.Expr) c20Sym
+		eval = func(s *state, e ast.Expr) c20Sym {
+			e = ast.Unparen(e)
+			if v, isC := f.ConstInt(e); isC {
+				return c20Sym{t: map[string]int64{}, k: v, ok: true}
+			}
+			switch x := e.(type) {
+			case *ast.BinaryExpr:
+				switch x.Op {
+				case token.ADD:
+					return eval(s, x.X).add(eval(s, x.Y), 1)
+				case token.SUB:
+					return eval(s, x.X).add(eval(s, x.Y), -1)
+				}
+			case *ast.Ident:
+				if o := f.ObjOf(x); o != nil {
+					if v, has := s.locals[o]; has {
+						return v
+					}
+				}
+			case *ast.SelectorExpr:
+				if path, _, isL := isListField(f, x); isL {
+					if v, has := s.fields[path]; has {
+						return v
+					}
+					return c20Sym{t: map[string]int64{path: 1}, ok: true}
+				}
+			}
+			return c20Sym{}
+		}
+		// the number of leading slots of data the slice expression e leaves out
+		lowOf := func(s *state, e ast.Expr) c20Sym {
+			e = ast.Unparen(e)
+			if id, isID := e.(*ast.Ident); isID {
+				e = ast.Unparen(f.valueOf(id))
+			}
+			if f.IsField(e, dataF) {
+				return c20Sym{t: map[string]int64{}, ok: true}
+			}
+			if sl, isSl := e.(*ast.SliceExpr); isSl && f.IsField(sl.X, dataF) {
+				if sl.Low == nil {
+					return c20Sym{t: map[string]int64{}, ok: true}
+				}
+				return eval(s, sl.Low)
+			}
+			return c20Sym{}
+		}
+		step := func(s *state, n ast.Node) {
+			if n == nil {
+				return
+			}
+			for _, call := range f.AllCalls(n, false) {
+				if f.BuiltinName(call) == "copy" && len(call.Args) == 2 && f.IsField(call.Args[0], dataF) {
+					s.shift = s.shift.add(lowOf(s, call.Args[1]), 1)
+				}
+			}
+			switch st := n.(type) {
+			case *ast.IncDecStmt:
+				d := int64(1)
+				if st.Tok == token.DEC {
+					d = -1
+				}
+				one := c20Sym{t: map[string]int64{}, k: d, ok: true}
+				if path, fld, isL := isListField(f, st.X); isL && fld != dataF {
+					s.fields[path] = eval(s, st.X).add(one, 1)
+				} else if o := f.ObjOf(st.X); o != nil {
+					if v, has := s.locals[o]; has {
+						s.locals[o] = v.add(one, 1)
+					}
+				}
+			case *ast.AssignStmt:
+				// right sides first (a tuple assignment reads all of them before it writes)
+				vals := make([]c20Sym, len(st.Lhs))
+				if len(st.Lhs) == len(st.Rhs) {
+					for i := range st.Lhs {
+						vals[i] = eval(s, st.Rhs[i])
+					}
+				}
+				for i, l := range st.Lhs {
+					var rhs ast.Expr
+					if len(st.Lhs) == len(st.Rhs) {
+						rhs = st.Rhs[i]
+					}
+					nv := vals[i]
+					switch st.Tok {
+					case token.ADD_ASSIGN:
+						nv = eval(s, l).add(vals[i], 1)
+					case token.SUB_ASSIGN:
+						nv = eval(s, l).add(vals[i], -1)
+					case token.ASSIGN, token.DEFINE:
+					default:
+						nv = c20Sym{}
+					}
+					if path, fld, isL := isListField(f, l); isL {
+						if fld != dataF {
+							s.fields[path] = nv
+							continue
+						}
+						// data = data[a:b] | append(data, …) | append(data[:0], data[a:]...)
+						switch r := ast.Unparen(rhs).(type) {
+						case *ast.SliceExpr:
+							s.shift = s.shift.add(lowOf(s, &ast.SliceExpr{X: r.X, Low: r.Low}), 1)
+						case *ast.CallExpr:
+							if rhs != nil && f.BuiltinName(r) == "append" && len(r.Args) >= 1 && f.IsField(r.Args[0], dataF) {
+								break
+							}
+							if rhs != nil && f.BuiltinName(r) == "append" && len(r.Args) == 2 && r.Ellipsis.IsValid() {
+								if b, isB := ast.Unparen(r.Args[0]).(*ast.SliceExpr); isB && f.IsField(b.X, dataF) && b.Low == nil && b.High != nil {
+									if z, isZ := f.ConstInt(b.High); isZ && z == 0 {
+										s.shift = s.shift.add(lowOf(s, r.Args[1]), 1)
+										break
+									}
+								}
+							}
+							s.shift = c20Sym{}
+						default:
+							s.shift = c20Sym{}
+						}
+						continue
+					}
+					if id, isID := ast.Unparen(l).(*ast.Ident); isID {
+						if o := f.ObjOf(id); o != nil {
+							s.locals[o] = nv
+						}
+					}
+				}
+			}
+		}
+		nPaths, bad, decidedPaths := 0, "", 0
+		var walk func(v int, s state, onPath map[int]bool)
+		walk = func(v int, s state, onPath map[int]bool) {
+			if nPaths > 256 || onPath[v] {
+				return
+			}
+			step(&s, g.Node(v))
+			isExit := false
+			for _, x := range g.Exits {
+				if x == v {
+					isExit = true
+				}
+			}
+			if isExit {
+				nPaths++
+				now := c20Sym{t: map[string]int64{}, ok: true}
+				for term, cf := range base.t {
+					cur, has := s.fields[term]
+					if !has {
+						cur = c20Sym{t: map[string]int64{term: 1}, ok: true}
+					}
+					for i := int64(0); i < cf; i++ {
+						now = now.add(cur, 1)
+					}
+					for i := int64(0); i > cf; i-- {
+						now = now.add(cur, -1)
+					}
+				}
+				want := base.add(s.shift, 1)
+				if now.ok && want.ok {
+					decidedPaths++
+					if !now.same(want) && bad == "" {
+						bad = "on some path"
+						if g.Node(v) != nil {
+							bad = "on a path to " + c.P.Rel(g.Node(v).Pos())
+						}
+					}
+				}
+				return
+			}
+			onPath[v] = true
+			for i, u := range g.succ[v] {
+				if i == len(g.succ[v])-1 {
+					walk(u, s, onPath)
+				} else {
+					walk(u, clone(s), onPath)
+				}
+			}
+			delete(onPath, v)
+		}
+		walk(g.Entry, state{fields: map[string]c20Sym{}, locals: map[types.Object]c20Sym{}, shift: c20Sym{t: map[string]int64{}, ok: true}}, map[int]bool{})
+		if decidedPaths == 0 {
+			continue
+		}
+		c.Check(bad == "", "After:index-origin-kept:"+f.Name(), f, nil, "the index origin After subtracts (%s) advances by exactly the number of leading slots of data that are dropped %s", exprStr(startRHS), bad)
+	}
 }
